@@ -14,6 +14,8 @@ EXHAUSTIVE_PARTS = (
     "are enumerated completely (every prefix is checked after every step); the random part "
     "(arbitrary option values, up to 40 steps) is sampled"
 )
+TECHNIQUE = 'bounded-exhaustive enumeration of option-call histories + Hypothesis-generated action lists vs a stack model'
+LEVEL_TEXT = 'All valid histories of 5 (quick) / 7 (thorough) actions over a 12-action alphabet are enumerated and compared with a stack model after every step; longer histories with arbitrary option values are sampled.'
 RULE = (
     "histories over the alphabet {enter global_options with one flag / two keys / no kwargs / "
     "valid+unknown key; exit innermost block normally / by Exception / by a BaseException subclass; "
